@@ -521,7 +521,15 @@ class Prog:
         return [(v['name'], v.get('discr')) for v in self.adts[adt_path]['variants']]
 
     def closures_of(self, parent_path):
-        return [b for b in self.bodies.values() if b.kind == 'Closure' and b.parent == parent_path]
+        parents = {parent_path}
+        hp = getattr(self, 'helper_paths', {})
+        work = [parent_path]
+        while work:
+            for h in hp.get(work.pop(), ()):
+                if h not in parents:
+                    parents.add(h)
+                    work.append(h)
+        return [b for b in self.bodies.values() if b.kind == 'Closure' and b.parent in parents]
 
     # ---- trait dispatch -------------------------------------------------------------------
     def impl_methods(self, trait, method):
@@ -566,11 +574,8 @@ class Prog:
     def absorbed(self, key):
         """a helper unknown to the reference tree whose every call has been inlined (inline.py): its code lives in its callers, the
         stand-alone body is dead for the analyses"""
-        known = getattr(self, 'known_functions', None)
         base = re.sub(r'(::\{closure#\d+\})+$', '', key)
-        if known is None or base in known:
-            return False
-        return base in getattr(self, 'inlined_into', {}) and not [c for c in self.callers.get(base, []) if not self.absorbed(self.key_of(c.body))]
+        return base in getattr(self, 'absorbed_bodies', {})
 
     def caller_fns(self, fn, _seen=None):
         """keys of the functions that call `fn`, for who-may-call rules: a helper that the reference tree does not have (and that is
